@@ -43,3 +43,30 @@ Definition hom_rate_series_total (g : grid R) (f gs : list (cx R)) (taus : list 
   end.
 
 Definition all_zero (f : list (cx R)) : Prop := forall z, In z f -> z = (0, 0)%R.
+
+(* ---- executable twin over Q (phase factors supplied: all 1 at zero delay, Pythagorean powers otherwise) *)
+From Coq Require Import QArith.
+Inductive outcome_q : Type := QPanic | QNaN | QInf | QVal (q : Q).
+
+Definition hom_rate_total_Q (N : nat) (f gs : list (cx Q)) (u : nat -> cx Q) (norm : option Q) : outcome_q :=
+  if idx_panics N (length f) (length gs) then QPanic
+  else
+    let fa := arr (0, 0)%Q f in
+    let ga := arr (0, 0)%Q gs in
+    let nrm := match norm with Some x => x | None => jsi_norm QOps (length f) fa end in
+    let result := hom_sum QOps N fa ga u in
+    if Qeq_bool nrm 0 then (if Qeq_bool result 0 then QNaN else QInf)
+    else QVal (hom_rate_gen QOps N fa ga u nrm).
+
+Inductive series_q : Type := SQPanic | SQOk (l : list outcome_q).
+Definition hom_rate_series_total_Q (N : nat) (f gs : list (cx Q)) (us : list (nat -> cx Q)) : series_q :=
+  let norm := jsi_norm QOps (length f) (arr (0, 0)%Q f) in
+  match us with
+  | nil => SQOk nil
+  | _ => if idx_panics N (length f) (length gs) then SQPanic
+         else SQOk (map (fun u => hom_rate_total_Q N f gs u (Some norm)) us)
+  end.
+
+(* the real outcome an executable outcome stands for *)
+Definition outcome_of_q (x : outcome_q) : hom_outcome :=
+  match x with QPanic => HomPanic | QNaN => HomNaN | QInf => HomInf | QVal q => HomVal (Q2R q) end.
